@@ -256,8 +256,10 @@ LoadedFrom(st) ==
   LET ids  == LoadIds(st, {Root})
       embs == {id \in ids \cap DOMAIN st : st[id].f = "emb"}
   IN [x \in ids \cup {1000 + id : id \in embs} |->
-        IF x >= 1000 THEN Leaf(st[x - 1000].ks, st[x - 1000].vs, st[x - 1000].nx)
-        ELSE IF x \in DOMAIN st THEN StoredNode(st, x) ELSE Leaf(<<>>, <<>>, Nil)]
+        IF x \in DOMAIN st /\ x \in ids THEN StoredNode(st, x)
+        ELSE IF x >= 1000 /\ (x - 1000) \in embs
+          THEN Leaf(st[x - 1000].ks, st[x - 1000].vs, st[x - 1000].nx)
+        ELSE Leaf(<<>>, <<>>, Nil)]
 Loaded == LoadedFrom(store)
 
 (* abort: the registered objects are invalidated and come back from the     *)
